@@ -30,14 +30,14 @@ FORMS = ["embedding", "nn_gelu", "conv1d", "bias_kw"]
 
 
 def gen_cases(tier: str, seed: int) -> List[Dict[str, Any]]:
-    n = 150 if tier == "quick" else 3000
+    n = 256 if tier == "quick" else 4000
     cases = []
     for i in range(n):
         rng = rng_for(seed, PROPERTY, "prof", i)
         cases.append({"kind": "track", "seed": derive_seed(seed, PROPERTY, i) % (2**31), "backward": rng.random() < 0.75, "zeros": rng.random() < 0.3,
                       "profile": {"dtype": "float32", "max_ops": rng.choice([2, 5, 9, 14]), "residual": rng.choice([0, 1, 2]),
                                   "forms": [f for f in FORMS if rng.random() < 0.5], "loss": rng.random() < 0.25, "extras": rng.random() < 0.6}})
-    for i in range(16 if tier == "quick" else 300):
+    for i in range(32 if tier == "quick" else 400):
         cases.append({"kind": "analyse", "seed": derive_seed(seed, PROPERTY, "an", i) % (2**31)})
     return cases
 
